@@ -128,6 +128,24 @@ ASSUMPTIONS = ["oracle bound = the bound of the Lean theorems + 1 s slack for re
 F3_SIG = {"site": "orchestration.orchestrator", "shape": "ensemble task ended with an exception while the operator keeps running"}
 
 CORE_SIG = {"site": "running.spawn_tasks", "shape": "core task ended with an exception while the operator keeps running"}
+DOUBLE_SIG = {"site": "orchestration.orchestrator",
+              "shape": "orchestrator cancelled a second time while stopping its ensemble: it ends cancelled, the ensemble is orphaned, "
+                       "the recorded failure is dropped"}
+RESPAWN_SIG = {"site": "daemons.daemon_killer",
+               "shape": "daemon spawned by a depleting worker after the daemon killer's sweep: nobody stops it, it runs through the "
+                        "cleanup activity and holds the exit until the hung-task stop"}
+SPAWNCANCEL_SIG = {"site": "running.spawn_tasks",
+                   "shape": "operator() cancelled inside spawn_tasks: the spawned tasks are never stopped and run on after it returned"}
+STOPCANCEL_SIG = {"site": "running.run_tasks",
+                  "shape": "operator() cancelled while it was stopping its root tasks: it returns at once, its tasks run on after it returned"}
+# deviations from the property text that are kopf's documented design (recorded as findings, not exempted)
+ABANDON_SIG = {"site": "daemons.stop_daemon",
+               "shape": "a daemon that does not exit on its stopper within cancellation_timeout (default: none) is abandoned: it runs "
+                        "through the cleanup activity until the hung-task stop"}
+NOCLEANUP_SIG = {"site": "running.startup_cleanup_activities",
+                 "shape": "on a cancellation of operator() the cleanup handlers are not run"}
+WITHDRAW_SIG = {"site": "peering.keepalive",
+                "shape": "a failed withdrawal (request error or no credentials) is logged and ignored: the peering record outlives the operator"}
 VAULT_SIG = {"site": "peering.keepalive",
              "shape": "withdrawal waits for credentials for ever after the credentials retriever died: operator() never returns"}
 DROPPED_SIG = {"site": "queueing.watcher",
@@ -586,8 +604,8 @@ def oracle(sc: dict, obs: dict) -> tuple[list[tuple[str, dict]], dict]:
     op_end = pos["opEnd"][0] if pos["opEnd"] else None
     trig: list[tuple[int, float, str]] = []            # (log position, time, kind)
     for i in pos["op"]:
-        if log[i][2] in ("flag", "cancel"):
-            trig.append((i, log[i][0], log[i][2]))
+        if log[i][2] in ("flag", "cancel", "cancel_yields"):
+            trig.append((i, log[i][0], "cancel" if log[i][2] == "cancel_yields" else log[i][2]))
     failures: list[tuple[int, float, str, str]] = []    # (position, time, where, exception)
     for i in pos["rootEnd"]:
         if log[i][3] == "failed":
@@ -633,6 +651,15 @@ def oracle(sc: dict, obs: dict) -> tuple[list[tuple[str, dict]], dict]:
                     DK_SIG))
         failures = [f for f in failures if f not in dk_failed]
     facts["daemon_killer_crashed"] = bool(dk_failed)
+    # the situations of the open findings C20-F8 … F11 (each reported under its own signature, see below)
+    double_cancel = [i for i, e in enumerate(log) if e[1] == "orchStopSubsCancelled"]
+    killer_pos = next((i for i, e in enumerate(log) if e[1] == "killerFinally"), None)
+    late_daemons = [] if killer_pos is None else [(log[i][3], log[i][4], i) for i in pos["hBegin"]
+                                                  if log[i][2] == "daemon" and i > killer_pos]
+    stop_cancelled = [i for i, e in enumerate(log) if e[1] == "rtStopRootsCancelled"]
+    never_stopped = ret is not None and ret["how"] == "cancelled" and not any(e[1] == "rtStopRootsBegin" for e in log)
+    facts["double_cancelled_orchestrator"] = bool(double_cancel)
+    facts["late_daemons"] = [d[:2] for d in late_daemons]
     facts["workers_failed_during_depletion"] = len(dropped)
     facts["failures"] = [f[2] + ":" + str(f[3]) for f in failures]
     facts["trigger"] = trig[0][2] if trig else None
@@ -684,6 +711,13 @@ def oracle(sc: dict, obs: dict) -> tuple[list[tuple[str, dict]], dict]:
                             f"not ended, its withdrawal request was {'sent' if wd_sent else 'never sent (waiting for credentials)'}; "
                             f"outcome when abandoned: {ret}", VAULT_SIG))
                 facts["noncooperative"] = True
+            elif late_daemons and ret is not None and any(log[j][1] == "hEnd" and log[j][2] == "daemon" and
+                                                          (log[j][3], log[j][4]) == d[:2] and log[j][0] > limit - H_S
+                                                          for d in late_daemons for j in pos["hEnd"] if j > d[2]):
+                d = late_daemons[0]
+                bad.append((f"daemon {d[0]} of {d[1]} was spawned at t={log[d[2]][0]}, after the daemon killer had swept the daemons at "
+                            f"t={log[killer_pos][0]}; nobody stopped it; operator() returned only at t={ret['t']} (bound {bound} s "
+                            f"after the {kind0} at t={t0}): {ret}", RESPAWN_SIG))
             elif dropped and dropped[0][0] == p0 and kind0 == "failure":
                 bad.append((f"a worker failed with {dropped[0][3]} at t={t0} while its watcher was depleting its workers; nothing was "
                             f"escalated: operator() still running at t={limit} (bound {bound} s); outcome {ret}", DROPPED_SIG))
@@ -716,6 +750,16 @@ def oracle(sc: dict, obs: dict) -> tuple[list[tuple[str, dict]], dict]:
             fail("running.run_tasks", "operator() returned although nothing failed and no stop was requested", f"{ret}")
         elif dk_failed:
             pass        # the outcome is the crash of the daemon killer or of a stopper it left behind (same finding)
+        elif double_cancel and ret["how"] not in want:
+            f0 = failures[0] if failures else ("?", "?", "?", "?")
+            bad.append((f"{f0[2]} failed with {f0[3]} at t={f0[1]}; the orchestrator, stopping its ensemble, was cancelled again at "
+                        f"t={log[double_cancel[0]][0]} (triggers {kinds}) and ended cancelled: the failure is not re-raised, operator() "
+                        f"outcome {ret}", DOUBLE_SIG))
+        elif late_daemons and ret["how"] == "failed" and ret["exc"] == "TimeoutError" and want != {"failed"}:
+            d = late_daemons[0]
+            bad.append((f"daemon {d[0]} of {d[1]} was spawned at t={log[d[2]][0]}, after the daemon killer's sweep at "
+                        f"t={log[killer_pos][0]}; cancelled as a hung task, its helper raised TimeoutError: operator() outcome {ret} "
+                        f"on a plain {kinds[0]}", RESPAWN_SIG))
         elif ret["how"] == "done" and dropped and want == {"failed"} and len(dropped) == len(failures) \
                 and not (startup_failed or cleanup_raised):
             bad.append((f"a worker failed with {dropped[0][3]} at t={dropped[0][1]} while its watcher was depleting its workers "
@@ -739,24 +783,43 @@ def oracle(sc: dict, obs: dict) -> tuple[list[tuple[str, dict]], dict]:
                 open_d[(e[3], e[4])] = i
             elif e[1] == "hEnd" and e[2] == "daemon":
                 open_d.pop((e[3], e[4]), None)
-        if open_d:
+        if open_d and not (never_stopped or stop_cancelled):       # (those two findings: reported below under their signatures)
             fail("daemons.daemon_killer", "a daemon was still running when operator() returned", f"{sorted(open_d)}")
         # nothing goes on after the run call returned
-        after = [log[i] for i in range(op_end + 1, len(log)) if log[i][1] in ("api", "hBegin")]
-        if after:
+        after = [log[i] for i in range(op_end + 1, len(log)) if log[i][1] in ("api", "hBegin", "hEnd", "rootEnd", "subEnd", "workerEnd")]
+        if after and never_stopped:
+            bad.append((f"operator() was cancelled at t={ret['t']} before run_tasks was reached (inside spawn_tasks): nobody stopped "
+                        f"the spawned tasks; afterwards: {after[:3]}", SPAWNCANCEL_SIG))
+        elif after and stop_cancelled:
+            bad.append((f"operator() was cancelled at t={log[stop_cancelled[0]][0]} while stopping its root tasks (after a {kinds[0]} at "
+                        f"t={trig[0][1]}): it returned at once; afterwards: {after[:3]}", STOPCANCEL_SIG))
+        elif after:
             fail("running.run_tasks", "activity after operator() returned", f"{after[:3]}")
         # the peering record is withdrawn
-        # (without credentials — the credentials retriever has died — no withdrawal can be sent: kopf logs and ignores that)
-        if sc.get("peering") and not sc.get("peering_faulted") and not any(f[2] == "root:core" for f in failures):
+        if sc.get("peering") and not (never_stopped or stop_cancelled):
             pings = [i for i in apis if log[i][2] == "pinger" and not log[i][7]]
             wd = [i for i in apis if log[i][7]]
-            if pings and not wd:
+            attempts = [e for e in log if e[1] == "withdrawEnd"]
+            present = (obs.get("peering_status") or {}).get("op") is not None
+            # kopf's design: the withdrawal is attempted; when it FAILS (request errors after the retries, or no credentials left)
+            # that is logged and ignored — a deviation from the property text, recorded as C20-D3, not exempted
+            failed_attempt = [e for e in attempts if e[4] not in (None, "CancelledError")] or \
+                [r for r in obs.get("requests", []) if r.get("withdraw") and not (isinstance(r.get("response"), int) and r["response"] < 400)]
+            if pings and present and failed_attempt:
+                bad.append((f"the withdrawal of the peering record failed ({failed_attempt[0][4] if isinstance(failed_attempt[0], list) else failed_attempt[0].get('response')}) "
+                            f"and was ignored: the record is still there after operator() returned: {obs.get('peering_status')}", WITHDRAW_SIG))
+            elif pings and not wd and not attempts:
                 fail("peering.keepalive", "peering record not withdrawn at exit", f"{len(pings)} keep-alives, no withdrawal")
-            elif pings and (obs.get("peering_status") or {}).get("op") is not None:
+            elif pings and present:
                 fail("peering.keepalive", "peering record still present after exit", f"{obs.get('peering_status')}")
         # cleanup handlers run after everything else has stopped
         cl_begin = [i for i in pos["hBegin"] if log[i][2] == "cleanup"]
-        if startup_ok and cleanup_ids and not cl_begin and "cancel" not in kinds:
+        if startup_ok and cleanup_ids and not cl_begin and never_stopped:
+            pass                                    # C20-F10, reported above
+        elif startup_ok and cleanup_ids and not cl_begin and "cancel" in kinds:
+            bad.append((f"operator() was cancelled at t={[t_ for _p, t_, k in trig if k == 'cancel'][0]}: the cleanup handlers "
+                        f"{cleanup_ids} were not run (kopf's design: no graceful period on cancellation); outcome {ret}", NOCLEANUP_SIG))
+        elif startup_ok and cleanup_ids and not cl_begin:
             fail("running.startup_cleanup_activities", "cleanup handlers did not run although startup had completed",
                  f"outcome {ret}")
         if cl_begin:
@@ -774,24 +837,39 @@ def oracle(sc: dict, obs: dict) -> tuple[list[tuple[str, dict]], dict]:
                     (log[i][1] in ("hBegin", "hEnd") and log[i][2] in CHANGE_KINDS) or
                     (log[i][1] in ("rootEnd",) and log[i][2] not in ("startupCleanup",)) or
                     (log[i][1] in ("subEnd", "workerEnd"))]
-            if late:
+            if late and double_cancel:
+                bad.append((f"the orchestrator was cancelled again at t={log[double_cancel[0]][0]} while stopping its ensemble and ended "
+                            f"at once: cleanup began at t={log[c0][0]} with the ensemble still alive; later: {late[:3]}", DOUBLE_SIG))
+            elif late:
                 fail("running.startup_cleanup_activities", "cleanup handlers began before the other activity had stopped",
                      f"cleanup began at t={log[c0][0]}; later: {late[:3]}")
-            running_d = set()
-            p_trig = trig[0][0] if trig else c0
+            # "daemons are stopped … cleanup handlers run after everything else has stopped": EVERY daemon running when the
+            # cleanup begins is a deviation; which one it is depends on how the daemon got there
+            running_d: dict[tuple, int] = {}
             for i in range(c0):
                 e = log[i]
                 if e[1] == "hBegin" and e[2] == "daemon":
-                    if i < p_trig:          # the daemons running at the moment of the trigger (later ones: only "ended by exit")
-                        running_d.add((e[3], e[4]))
+                    running_d[(e[3], e[4])] = i
                 elif e[1] == "hEnd" and e[2] == "daemon":
-                    running_d.discard((e[3], e[4]))
+                    running_d.pop((e[3], e[4]), None)
+            # (requests of daemons during the cleanup belong to the same deviations: a daemon that is still there)
             coop = coop_daemons(sc)
-            running_coop = sorted(d for d in running_d if d[0] in coop)
-            facts["abandoned_daemons_at_cleanup"] = sorted(d for d in running_d if d[0] not in coop)
+            late_running = sorted(d for d, i in running_d.items() if killer_pos is not None and i > killer_pos)
+            swept = {d: i for d, i in running_d.items() if d not in late_running}
+            running_coop = sorted(d for d in swept if d[0] in coop)
+            abandoned = sorted(d for d in swept if d[0] not in coop)
+            facts["abandoned_daemons_at_cleanup"] = abandoned
+            if late_running:
+                bad.append((f"cleanup began at t={log[c0][0]} while daemons {late_running}, spawned after the daemon killer's sweep at "
+                            f"t={log[killer_pos][0]}, were running: nobody stops them before the hung-task stop", RESPAWN_SIG))
             if running_coop and not dk_failed:
                 fail("daemons.daemon_killer", "cleanup activity began while a cooperative daemon was still running",
                      f"cleanup began at t={log[c0][0]} while daemons {running_coop} were still running")
+            if abandoned and not dk_failed:
+                bad.append((f"cleanup began at t={log[c0][0]} while daemons {abandoned} were still running: they did not exit on their "
+                            f"stopper and kopf abandoned them (cancellation_timeout: "
+                            f"{sorted({str((h.get('opts') or {}).get('cancellation_timeout')) for h in sc.get('handlers', []) if h['kind'] == 'daemon' and h['id'] in {d[0] for d in abandoned}})})",
+                            ABANDON_SIG))
     return bad, facts
 
 
@@ -820,7 +898,10 @@ DAEMON_SHAPES = [
 ]
 TRIGGERS = ["flag", "flag", "cancel", "cancel", "watch_error_kex", "watch_error_crd", "watch_error_peering", "poison",
             "memo_poison", "discovery_500_initial", "discovery_500_rescan", "pinger_500", "startup_fail", "cleanup_fail",
-            "flag", "watch_error_kex", "crd_gone", "login_fail", "worker_fail_depletion", "early_stop_peering"]
+            "flag", "watch_error_kex", "crd_gone", "login_fail", "worker_fail_depletion", "early_stop_peering",
+            # two triggers in one history, and the stop at the very first moment
+            "failure_then_stop", "failure_then_stop", "two_failures", "flag_then_cancel", "respawn_daemon", "cancel_in_spawn",
+            "worker_fail_gone"]
 PHASES = ["startup", "startup_end", "discovery", "spawning", "steady", "inflight"]
 
 
@@ -830,6 +911,10 @@ def gen_history(rng: Any, i: int, force: dict | None = None) -> dict:
     peering = force.get("peering", rng.random() < 0.4 or trigger in ("watch_error_peering", "pinger_500"))
     if trigger == "early_stop_peering":
         peering = True
+    if trigger in ("failure_then_stop", "two_failures"):
+        peering = force.get("peering", rng.random() < 0.7)
+    if trigger == "worker_fail_gone":
+        peering = False
     if trigger == "login_fail":
         # with peering: before /repo 83aec44 the dead vault blocked the withdrawal PATCH for ever (finding C20-F7)
         peering = force.get("peering", rng.random() < 0.3)
@@ -865,18 +950,24 @@ def gen_history(rng: Any, i: int, force: dict | None = None) -> dict:
     shape["cleanup"] = sorted(cl_shapes)
     # daemons, change handlers, objects
     dm = []
-    for k in range(rng.choice([0, 1, 1, 2])):
+    for k in range(rng.choice([0, 1, 1, 2]) if trigger != "respawn_daemon" else 0):
         name, d, opts = rng.choice(DAEMON_SHAPES)
         dm.append(name)
         handlers.append({"kind": "daemon", "id": f"d{k}", "daemon": dict(d), "opts": dict(opts)})
+    if trigger == "respawn_daemon":
+        name, d, opts = rng.choice([s for s in DAEMON_SHAPES if s[0] in ("obey", "cancel", "cancel-backoff")])
+        dm.append(name)
+        handlers.append({"kind": "daemon", "id": "d0", "daemon": dict(d), "opts": dict(opts)})
     shape["daemons"] = sorted(dm)
-    dur = rng.choice([0.5, 1.5, 1.5, 3.0]) if trigger != "worker_fail_depletion" else rng.choice([1.0, 1.5])
+    dur = rng.choice([0.5, 1.5, 1.5, 3.0]) if trigger not in ("worker_fail_depletion", "respawn_daemon", "worker_fail_gone") \
+        else rng.choice([1.0, 1.5])
     handlers.append({"kind": "create", "id": "c", "script": [], "default": "ok"})
     handlers.append({"kind": "update", "id": "u", "script": [], "default": ["sleep", dur, "ok"]})
     if trigger == "login_fail":
         # the credentials are invalidated later on (HTTP 401); the re-login fails for good: the core task dies
         handlers.append({"kind": "login", "id": "lg", "script": ["ok", "perm"], "default": "perm"})
-    n_obj = rng.choice([0, 1, 1, 2, 3]) if trigger not in ("poison", "memo_poison", "login_fail", "worker_fail_depletion") \
+    n_obj = rng.choice([0, 1, 1, 2, 3]) if trigger not in ("poison", "memo_poison", "login_fail", "worker_fail_depletion",
+                                                              "respawn_daemon", "flag_then_cancel", "worker_fail_gone") \
         else rng.choice([1, 2])
     objects = [{"name": f"o{k}"} for k in range(n_obj)]
     # the trigger's moment
@@ -886,8 +977,11 @@ def gen_history(rng: Any, i: int, force: dict | None = None) -> dict:
         phase = "startup"
     if trigger not in ("flag", "cancel", "startup_fail", "discovery_500_initial") and phase in ("startup", "startup_end", "discovery"):
         phase = rng.choice(["spawning", "steady", "inflight"])
-    if trigger == "worker_fail_depletion":
+    if trigger in ("worker_fail_depletion", "failure_then_stop", "two_failures", "flag_then_cancel", "respawn_daemon",
+                   "worker_fail_gone"):
         phase = "steady"
+    if trigger == "cancel_in_spawn":
+        phase = "startup"
     if trigger == "early_stop_peering":
         phase = "spawning"
     if phase == "startup" and s_dur == 0:
@@ -907,7 +1001,7 @@ def gen_history(rng: Any, i: int, force: dict | None = None) -> dict:
     shape["phase"] = phase
     shape["inflight"] = inflight
     sc: dict[str, Any] = {"seed": i, "handlers": handlers, "objects": objects, "peering": peering, "settings": {}}
-    if rng.random() < 0.3 and trigger != "worker_fail_depletion":
+    if rng.random() < 0.3 and trigger not in ("worker_fail_depletion", "respawn_daemon", "worker_fail_gone"):
         sc["settings"]["queueing.exit_timeout"] = rng.choice([0.5, 1.0, 4.0])
     if trigger == "flag":
         ops.append([t, "flag"])
@@ -945,6 +1039,46 @@ def gen_history(rng: Any, i: int, force: dict | None = None) -> dict:
         sc["peering_response_latency"] = rng.choice([8 / TPS, 0.25, 0.5, 0.5])
         t = s_dur + rng.choice([4, 6, 8, 10, 12, 16]) / TPS
         ops.append([t, rng.choice(["flag", "flag", "cancel"])])
+    elif trigger == "failure_then_stop":
+        # an ensemble / observer stream fails; while the failure is being escalated (the orchestrator stops the other streams:
+        # a withdrawal answered late, a handler in flight) the stop request comes
+        if peering:
+            sc["peering_response_latency"] = rng.choice([0.25, 0.5])
+        if objects and rng.random() < 0.6:
+            ops.append([t - 0.5, "edit", objects[0]["name"], 10])
+            shape["inflight"] = True
+        ops.append([t, "watch_error", rng.choice(["kex", "kex", "crd"] + (["peering"] if peering else []))])
+        ops.append([t + rng.choice([1 / TPS, 0.125, 0.125, 0.25]), rng.choice(["flag", "flag", "cancel"])])
+    elif trigger == "two_failures":
+        if peering:
+            sc["peering_response_latency"] = rng.choice([0.25, 0.5])
+        first, second = rng.sample(["kex", "crd"] + (["peering"] if peering else []), 2)
+        ops.append([t, "watch_error", first])
+        ops.append([t + rng.choice([0.0, 1 / TPS, 0.125, 0.25]), "watch_error", second])
+    elif trigger == "flag_then_cancel":
+        ops.append([t - 0.5, "edit", objects[0]["name"], 10])
+        ops.append([t, "flag"])
+        ops.append([t + rng.choice([1 / TPS, 0.25, 0.5]), "cancel"])
+        shape["inflight"] = True
+    elif trigger == "respawn_daemon":
+        # two events of an object with a daemon are queued behind a handler in flight when the stop comes
+        ops.append([t - 0.5, "edit", objects[0]["name"], 10])
+        ops.append([t - 0.25, "edit", objects[0]["name"], 11])
+        ops.append([t, rng.choice(["flag", "flag", "cancel"])])
+        shape["inflight"] = True
+    elif trigger == "cancel_in_spawn":
+        ops.append([0.0, "cancel_yields", rng.choice([1, 1, 2])])
+    elif trigger == "worker_fail_gone":
+        # the served CRD is deleted while a handler is in flight and a poisoned event waits behind it: the worker fails while
+        # its watcher (ended by HTTP 404: not a failure) depletes — nothing stops the operator (C20-F5, "keeps running")
+        sc["crd_object"] = True
+        sc["handlers"] = handlers = [h for h in handlers if h["kind"] != "daemon"]
+        shape["daemons"] = []
+        ops.append([t - 0.5, "edit", objects[0]["name"], 10])
+        ops.append([t - 0.25, "poison", objects[0]["name"], 77])
+        ops.append([t, "crd_delete"])
+        ops.append([t + 3.0, "crd_create"])
+        shape["inflight"] = True
     elif trigger == "login_fail":
         ops.append([t, "unauthorized"])
         ops.append([t + rng.choice([1 / TPS, 0.5]), "edit", objects[0]["name"], 20])
@@ -961,11 +1095,12 @@ def gen_history(rng: Any, i: int, force: dict | None = None) -> dict:
     elif trigger == "cleanup_fail":
         ops.append([t, rng.choice(["flag", "flag", "cancel"])])
     # when is the trigger felt at the latest? (keep-alive period <= 60 s; retries of a failing request)
-    felt = {"login_fail": t + 1.0, "pinger_500": t + 60.0 + 8.0, "discovery_500_rescan": t + 8.0, "discovery_500_initial": s_dur + 8.0,
+    felt = {"failure_then_stop": t + 0.25, "two_failures": t + 0.25, "flag_then_cancel": t + 0.5, "cancel_in_spawn": 0.0,
+            "worker_fail_gone": t + 2.0, "login_fail": t + 1.0, "pinger_500": t + 60.0 + 8.0, "discovery_500_rescan": t + 8.0, "discovery_500_initial": s_dur + 8.0,
             "startup_fail": s_dur + 1.0, "memo_poison": t + 1.0}.get(trigger, t)
     b = bound_s(sc)
     probe = felt + b + 2.0
-    if objects and trigger != "crd_gone":
+    if objects and trigger not in ("crd_gone",):
         ops.append([probe, "edit", objects[0]["name"], 99])
     sc["ops"] = sorted(ops, key=lambda e: e[0])
     sc["end"] = probe + 8.0
